@@ -40,6 +40,7 @@ class vlan(packet_base):
     "802.1q vlan header"
 
     MIN_LEN = 4
+    MAX_NESTING = 16 # Tags we parse within one frame (others stay raw)
 
     def __init__(self, raw=None, prev=None, **kw):
         packet_base.__init__(self)
@@ -79,6 +80,20 @@ class vlan(packet_base):
         self.id  = pcpid  & 0x0fff
 
         self.parsed = True
+
+        # Tags can be stacked (QinQ), and each one is parsed by a nested call.
+        # A frame made of nothing but tags must not be able to run us into
+        # the interpreter's recursion limit: past MAX_NESTING, the rest of
+        # the frame is kept as raw bytes.
+        depth = 0
+        p = self.prev
+        while isinstance(p, vlan):
+            depth += 1
+            p = p.prev
+        if depth >= vlan.MAX_NESTING:
+            self.msg('(vlan parse) warning too many stacked VLAN tags')
+            self.next = raw[vlan.MIN_LEN:]
+            return
 
         self.next = ethernet.parse_next(self,self.eth_type,raw,vlan.MIN_LEN)
 
